@@ -93,31 +93,14 @@ def judge_concrete(name, ops, extra):
     for op in ops:
         st = w.apply(list(op))
         found.extend(per_step(w, st))
-    if not found:
-        found.extend(judge(w))
-    return found[:1]
+    found.extend(judge(w))
+    return found
 
 
 def run_unit(name, tier, seed):
     _TWIN.clear()
-    scale = 0.5 if tier == 'quick' else 0.35
-    passes = f1.std_passes(name, tier, scale)
-
-    def per(w, st):
-        return per_step(w, st)
-
-    # pre-state for the first operation is taken lazily: World has no _lite before step 1
-    orig_init = hist.World.__init__
-
-    def init(self, *a, **k):
-        orig_init(self, *a, **k)
-        self._lite = lite(self)
-    hist.World.__init__ = init
-    try:
-        r = f1.multi(name, passes, judge, judge_concrete, per_step=per)
-    finally:
-        hist.World.__init__ = orig_init
-    return r
+    passes = f1.std_passes(name, tier, 0.6 if tier == 'quick' else 0.4)
+    return f1.multi(name, passes, judge, judge_concrete, per_step=per_step, pre_step=pre_step)
 
 
 def replay(c):
@@ -137,7 +120,7 @@ def describe():
         functions=['xmlelement/xmlelement.py:XMLElement.add_child', 'XMLElement.remove', 'XMLElement.replace_child', 'XMLElement.__setattr__',
                    'XMLElement.to_string', 'xmlelement/xmlchildcontainer.py:XMLChildContainer.add_element', 'XMLChildContainer._check_choices_intelligently',
                    'XMLChildContainer.duplicate', 'XMLChildContainer._update_requirements_in_path'],
-        bounds=dict(history_length='wide pass K=2, deep pass K=3 (budgets half of C01)', acceptance_vector='ADD of each of <= 8 names',
+        bounds=dict(exploration='breadth-first over reachable states as C01, budgets 0.6 / 0.4 of C01', acceptance_vector='ADD of each of <= 8 names',
                     outside='longer histories; attribute/value assignment failures are covered by C04/C05 harnesses'),
         assumptions=['children built with xsd_check=False', 'serial marks of children are masked when texts are compared'],
         exhaustive_within_bounds=True)
